@@ -71,6 +71,10 @@ def _rxn_hooks(var: str, side: str, lb: float, ub: float, flux: float = 0.0):
                 return Sym({"REV"})
             if a.attr == "id":
                 return "EX_m"
+            if a.attr == "reversibility":
+                return lb < 0 < ub
+            if a.attr == "boundary":
+                return True
         return NotImplemented
 
     return on_attr
